@@ -280,5 +280,25 @@ def hopUA (order : List Stage) (cred : Option Bytes) (rs : List Rule) (h : HMap)
 def hopAuthorization (order : List Stage) (cred : Option Bytes) (rs : List Rule) (h : HMap) : List Bytes :=
   (HMap.get (runStack order cred rs h) authKey).getD []
 
+/-! ### The connect rule list on the CONNECT head an upstream proxy receives
+
+  A client's CONNECT that is relayed to an upstream HTTP(S) proxy meets the `--connect-header` list
+  TWICE: as request modifier over the client's CONNECT header (`configureHeadersModifiers`), and
+  again in `dialvia.HTTPProxyDialer`, which asks `GetProxyConnectHeader` (`command/run`
+  `configureTransportProxy`: the list applied to an EMPTY header) and copies the result over the
+  request header key by key (`maps.Copy(req.Header, headers)`).  (The fixed `User-Agent: ""` /
+  `Proxy-Authorization` base of dialvia and `setEmptyUserAgent` are in `Model/Req.lean`
+  `dialviaConnectHead`; they do not touch the names the theorems here speak about.) -/
+
+/-- `maps.Copy(dst, src)`: every key of `src` replaces the key in `dst` -/
+def copyOver (dst src : HMap) : HMap := src.foldl (fun d e => HMap.put d e.1 e.2) dst
+
+/-- `GetProxyConnectHeader`: the connect list applied to an empty header -/
+def connectSecondPass (rs : List Rule) : HMap := applyRules rs []
+
+/-- header of the CONNECT written to the upstream proxy for a client CONNECT whose header is `h` when
+    the rules run -/
+def connectHeadMap (rs : List Rule) (h : HMap) : HMap := copyOver (applyRules rs h) (connectSecondPass rs)
+
 end C16
 end FwdVerif
